@@ -67,7 +67,7 @@ func (C11) Explore(x *kernel.Explorer, seed uint64) {
 	for i := 0; i < 4 && !x.Expired(); i++ {
 		plan := &kernel.Plan{Prop: "C11", Seed: kernel.Mix(seed, uint64(i)), Swarm: map[string]int64{"idlenth": int64([]int{0, 0, 0, 2, 3}[r.Intn(5)]), "pgreexec": int64(r.Intn(2)),
 			"chunk": int64(r.Intn(4)), "win": int64(r.Intn(12)), "side": int64(r.Intn(2)), "env": int64(r.Intn(2)),
-			"pattern": int64(r.Intn(4)), "params": int64(r.Intn(2)), "binary": int64(r.Intn(2)), "mysql": int64(r.Intn(3) / 2), "depeof": int64(r.Intn(2)), "rawmy": int64(r.Intn(2)), "reexec": int64(r.Intn(2)), "wyield": int64(r.Intn(2))}}
+			"pattern": int64(r.Intn(4)), "params": int64(r.Intn(2)), "binary": int64(r.Intn(2)), "sqlprep": int64(r.Intn(3)), "mysql": int64(r.Intn(3) / 2), "depeof": int64(r.Intn(2)), "rawmy": int64(r.Intn(2)), "reexec": int64(r.Intn(2)), "wyield": int64(r.Intn(2))}}
 		n := 1 + r.Intn(5)
 		for j := 0; j < n; j++ {
 			// value length relative to the window: shorter, equal, longer
@@ -186,6 +186,16 @@ func (C11) Run(t *testing.T, plan *kernel.Plan, keepLog bool) *kernel.Result {
 			for i := range values {
 				rs = append(rs, Stmt{SQL: fmt.Sprintf("SELECT id, plain, c1 FROM t1 WHERE id = %d", i+1), Extended: plan.Sw("binary") == 1,
 					ResultFormats: map[bool][]int16{true: {1}, false: nil}[plan.Sw("binary") == 1]})
+				if mysql && plan.Sw("binary") != 1 && plan.Sw("sqlprep") > 0 {
+					// SQL-level prepared statement, from a literal or from a user variable
+					text := fmt.Sprintf("SELECT id, plain, c1 FROM t1 WHERE id = %d", i+1)
+					name := fmt.Sprintf("sp%d", i)
+					pre := []string{fmt.Sprintf("PREPARE %s FROM '%s'", name, text)}
+					if plan.Sw("sqlprep") == 2 {
+						pre = []string{fmt.Sprintf("SET @q%d = '%s'", i, text), fmt.Sprintf("PREPARE %s FROM @q%d", name, i)}
+					}
+					rs[len(rs)-1] = Stmt{Pre: pre, SQL: "EXECUTE " + name}
+				}
 			}
 			rrun := pw.RunSession(reader, rs)
 			for i, v := range values {
